@@ -185,7 +185,10 @@ def impl(case):
                 d[name] = Err("Other", type(e).__name__)
         return d
     out["api"] = getters()
-    out["api_again_same"] = getters() == out["api"] and [bool(b.is_signed_v2()), bool(b.is_signed_v3()), bool(b.is_signed_v31())] == out["flags"][:3]
+    second = getters()
+    # for a block the parser refuses (an exception the first time) nothing is required of a second attempt
+    out["api_again_same"] = all(second[n] == out["api"][n] for n in second if not isinstance(out["api"][n], Err)) and \
+        [bool(b.is_signed_v2()), bool(b.is_signed_v3()), bool(b.is_signed_v31())] == out["flags"][:3]
     return out
 
 
